@@ -962,6 +962,57 @@ func c07StampBeforePersist(c *Ctx) {
 				}
 			}
 		}
+		// (c) the function that persists a code / device / pushed request stamps that credential's
+		//     own expiry kind first (a stamp under a sibling kind leaves the credential without expiry)
+		okK, whyK := true, ""
+		var wK *Path
+		ownKind := map[string][]string{".CreateAuthorizeCodeSession": {"authorize_code"}, ".CreateDeviceAuthSession": {"device_code", "user_code"}, ".CreatePARSession": {"par_context"}}
+		nK := 0
+		for _, p := range ex.Paths {
+			for _, cr := range p.Events {
+				kinds := ownKind[cr.Name]
+				if cr.Kind != "call" || kinds == nil {
+					continue
+				}
+				// only functions that are stampers: some expiry is stamped before this persist on the path
+				stamper := false
+				for _, e := range p.Events[:cr.Idx] {
+					if e.Kind == "call" && e.Name == ".SetExpiresAt" {
+						stamper = true
+					}
+				}
+				if !stamper {
+					continue
+				}
+				nK++
+				for _, k := range kinds {
+					found := false
+					for _, e := range p.Events[:cr.Idx] {
+						if e.Kind == "call" && e.Name == ".SetExpiresAt" {
+							if v, _ := e.Arg(0).StrConst(); v == k {
+								found = true
+							}
+						}
+					}
+					if !found {
+						// tolerated: the request carries no session on this path
+						nilSess := false
+						for _, a := range cr.Args {
+							if a != nil && a != tCtx && !a.IsConst() && p.IsNil(call(".GetSession", a)) {
+								nilSess = true
+							}
+						}
+						if !nilSess {
+							okK, wK = false, p
+							whyK = fmt.Sprintf("%s (%s) persists the request without its %s expiry having been stamped on this path", cr.Name, c.P.Pos(cr.Instr.Pos()), k)
+						}
+					}
+				}
+			}
+		}
+		if nK > 0 {
+			c.Check(okK, rule, en.role, en.fn, "stamps-own-kind", "a function that stamps expiries and persists a code, device or pushed request stamps that credential's own expiry kind before persisting it", whyK, wK)
+		}
 		if m > 0 {
 			n++
 			c.Check(ok, rule, en.role, en.fn, "stamped-before-persist", "every SetExpiresAt on a request's session precedes the storage call that persists that request", why, w)
@@ -1012,6 +1063,27 @@ func c07StampBase(c *Ctx) {
 				}
 			}
 		}
+		// the stamp survives: the session that was stamped is not replaced afterwards (SetSession on the
+		// owner after SetExpiresAt on its session throws the stamp away)
+		okS, whyS := true, ""
+		var wS *Path
+		for _, p := range ex.Paths {
+			for _, e := range p.Calls(".SetExpiresAt") {
+				if e.Recv == nil || !e.Recv.IsCall(".GetSession") || len(e.Recv.Args) != 1 {
+					continue
+				}
+				owner := e.Recv.Args[0]
+				for _, ss := range p.Events[e.Idx+1:] {
+					if ss.Kind == "call" && ss.Name == ".SetSession" && ss.Recv != nil && ss.Recv.Key() == owner.Key() {
+						okS, wS = false, p
+						whyS = fmt.Sprintf("SetSession at %s replaces the session that was stamped at %s", c.P.Pos(ss.Instr.Pos()), c.P.Pos(e.Instr.Pos()))
+					}
+				}
+			}
+		}
+		if m > 0 {
+			c.Check(okS, rule, en.role, en.fn, "stamp-survives", "the session an expiry was stamped on is not replaced afterwards", whyS, wS)
+		}
 		if m > 0 {
 			n++
 			c.Check(ok, rule, en.role, en.fn, "stamp-is-now-plus-lifespan", "every expiry a handler writes into a session is the current time plus a duration", why, w)
@@ -1020,4 +1092,17 @@ func c07StampBase(c *Ctx) {
 	if n < 5 {
 		c.RoleUnmatched(rule, "stamp-sites", fmt.Sprintf("at least 5 handler functions stamping an expiry; found %d", n))
 	}
+}
+
+// stampsKind: the path stamps one of the kinds.
+func stampsKind(p *Path, kinds []string) bool {
+	for _, e := range p.Calls(".SetExpiresAt") {
+		v, _ := e.Arg(0).StrConst()
+		for _, k := range kinds {
+			if v == k {
+				return true
+			}
+		}
+	}
+	return false
 }
